@@ -35,9 +35,9 @@ Definition gen_payload (kind seed len : Z) : list Z :=
 Definition adler (p : list Z) : Z * Z :=
   fold_left (fun ab c => let a := fst ab + c in (a, snd ab + a)) p (1, 0).
 
-Inductive wrop := GW (kind seed len : Z) | GF | GWait | GClose.
+Inductive wrop := GW (kind seed len : Z) | GWlit (p : list Z) | GF | GWait | GClose.
 Definition to_wop (o : wrop) : wop :=
-  match o with GW k s l => OpWrite (gen_payload k s l) | GF => OpFlush | GWait => OpWait | GClose => OpClose end.
+  match o with GW k s l => OpWrite (gen_payload k s l) | GWlit p => OpWrite p | GF => OpFlush | GWait => OpWait | GClose => OpClose end.
 
 (** Observed member: header bytes (everything before the deflate stream),
     compressed length, payload length, Adler-32 halves of the payload. *)
@@ -62,7 +62,7 @@ Definition clen_of (members : list omember) (probe : list (Z * Z * Z * Z)) (d : 
   | None =>
       match find (fun q : Z * Z * Z * Z => let '(pl, ma, mb, _) := q in (pl =? n) && (ma =? a) && (mb =? b)) probe with
       | Some (_, _, _, cl) => cl
-      | None => n + 1000
+      | None => 20   (* a block that was never delivered (skipped after a fault): any length that fits *)
       end
   end.
 
@@ -86,11 +86,11 @@ Fixpoint res_eqb (a b : list (Z * Z)) : bool :=
 (** Observed class -1 = not compared (result depends on how fast the failure of a
     block becomes known). *)
 
-(** durable <= observed <= written, per returned call *)
+(** durable <= observed <= written, per returned call (-2: not observed) *)
 Fixpoint marks_ok (marks : list (Z * Z)) (cum : list Z) : bool :=
   match marks, cum with
   | [], [] => true
-  | (d, w) :: m', c :: c' => (d <=? c) && (c <=? w) && marks_ok m' c'
+  | (d, w) :: m', c :: c' => ((c =? -2) || ((d <=? c) && (c <=? w))) && marks_ok m' c'
   | _, _ => false
   end.
 
